@@ -211,6 +211,11 @@ class ASTCFG(dict[str, WritableASTBlock]):
                             b.jump_targets[0] = it
                         if b.jump_targets[1] == name:
                             b.jump_targets[1] = it
+                        if b.jump_targets[0] == b.jump_targets[1]:
+                            # Both arms were empty, the block no longer
+                            # branches. Its test is evaluated for effect only.
+                            b.jump_targets.pop()
+                            b.instructions[-1] = ast.Expr(b.instructions[-1])
         self.empty = empty
         return empty
 
